@@ -515,6 +515,14 @@ pub fn gen(ctx: &mut Ctx) {
                 ("subkey-signed-empty-message-issuer-twice", Box::new(|_: &[u8]| subkey_signature(&[], true))),
                 // the primary key over the empty message
                 ("primary-signed-empty-message", Box::new(|_: &[u8]| primary_signature(&[]))),
+                // blobs that hold NO signature packet at all (well-framed OpenPGP packets of other kinds, text, nothing):
+                // nobody signed anything, whatever the verifier does with them
+                ("no-signature-packet-userid", Box::new(|_: &[u8]| Some(vec![0xb4, 3, b'a', b'b', b'c']))),
+                ("no-signature-packet-marker", Box::new(|_: &[u8]| Some(vec![0xca, 3, b'P', b'G', b'P']))),
+                ("no-signature-packet-two-packets", Box::new(|_: &[u8]| Some(vec![0xb4, 1, b'x', 0xca, 3, b'P', b'G', b'P']))),
+                ("no-signature-packet-text", Box::new(|_: &[u8]| Some(b"this is not a signature".to_vec()))),
+                ("no-signature-packet-empty", Box::new(|_: &[u8]| Some(Vec::new()))),
+                ("no-signature-packet-zero-length-sig", Box::new(|_: &[u8]| Some(vec![0x88, 0]))),
             ];
             for (label, f) in cases {
                 match crafted_package(&mut r, f) {
